@@ -10,8 +10,15 @@
 (*   accepts : set of scheme names the callback accepts                    *)
 (*   pparams, oparams : sequences of [in, name, kind]  (path-item / operation level) *)
 (*   values  : sequence of [in, name, text]  what the request carries      *)
-(*   body    : "none" | "pass" | "fail"                                    *)
+(*   bdecl   : "none" | "optional" | "required"   what the operation declares as requestBody          *)
+(*   body    : "none" | "empty" | "pass" | "fail" | "otherct" | "badjson"  what the request carries     *)
 (*   multi, exclBody, exclQuery, authReadsBody : BOOLEAN                   *)
+(*   prefs   : "none" | "path" | "op" | "both": the parameters of that level are $refs to               *)
+(*             components.parameters (the contract does not look at it)                               *)
+(*   opts    : "plain" | "skipdefaults" | "exclreadonly" | "nocallback" | "nil": options the         *)
+(*             statement does not mention leave the verdict alone; "nocallback" = no                  *)
+(*             AuthenticationFunc, "nil" = no Options value at all (hence no callback either):        *)
+(*             no scheme can be accepted (accepts = {}), nothing is called                            *)
 (***************************************************************************)
 EXTENDS Naturals, Sequences, FiniteSets, TLC
 
@@ -30,14 +37,26 @@ Considered(c) == {e \in Effective(c) : ~(c.exclQuery /\ e.in = "query")}
 TextOf(c, e) == LET vs == {v \in Range(c.values) : <<v.in, v.name>> = Key(e)} IN
                 IF vs = {} THEN "absent" ELSE (CHOOSE v \in vs : TRUE).text
 (* kind "int": an integer schema; "strx": a string that must start with x; "reqint": a REQUIRED integer;  *)
+(* "cint": an optional integer described by content (application/json) instead of schema;                  *)
 (* "reqintd": a required integer whose schema also has a default -- a default does not make an absent       *)
 (* required parameter present                                                                              *)
 IsRequired(e) == e.kind \in {"reqint", "reqintd"}
 Passes(c, e) == LET t == TextOf(c, e) IN
                 IF t = "absent" THEN ~IsRequired(e)
-                ELSE (e.kind \in {"int", "reqint", "reqintd"} /\ t = "1") \/ (e.kind = "strx" /\ t = "x")
+                ELSE (e.kind \in {"int", "reqint", "reqintd", "cint"} /\ t = "1") \/ (e.kind = "strx" /\ t = "x")
 
-BodyFails(c) == c.body = "fail" /\ ~c.exclBody
+(* the body part.  What the operation declares and what the request carries are independent:        *)
+(*   - no requestBody declared: there is no body part, whatever the request carries                   *)
+(*   - the request carries no bytes ("none": no body at all, "empty": a body of length 0): the part   *)
+(*     fails exactly when the declaration says required                                               *)
+(*   - bytes: "pass" is a JSON document valid against the declared schema; "fail" a JSON document     *)
+(*     that is not; "otherct" bytes under a content type the operation does not declare; "badjson"    *)
+(*     bytes that are not JSON under the declared JSON content type                                   *)
+(* ExcludeRequestBody removes the whole part: presence of a required body included.                   *)
+BodyPartFails(c) ==
+   /\ c.bdecl # "none"
+   /\ IF c.body \in {"none", "empty"} THEN c.bdecl = "required" ELSE c.body # "pass"
+BodyFails(c) == BodyPartFails(c) /\ ~c.exclBody
 
 FailingParts(c) ==
    (IF SecOK(c) THEN {} ELSE {"security"})
@@ -46,16 +65,48 @@ FailingParts(c) ==
 
 Accepts(c) == FailingParts(c) = {}
 
+(* History.  The answer of a validation is a function of the route it is given -- the path item and  *)
+(* the operation as they are AT THE TIME OF THE CALL -- the request and the options.  A step of a    *)
+(* history is another validation in the same process:                                                *)
+(*   via "share"   : through a second path item that holds the SAME Operation value (a document      *)
+(*                   assembled in code: an alias path); its path-level parameters are the step's     *)
+(*   via "sibling" : of another operation (another method) of the SAME path item; operation-level    *)
+(*                   parameters, security and body declaration are the step's                        *)
+(*   via "edit"    : through the same route after the document was edited in place (path-level /     *)
+(*                   operation-level parameters, operation / document security, requestBody)         *)
+(*   via "back"    : through the first route again, its original content restored                    *)
+(* View(c, s) is the case as that validation sees it.                                                *)
+View(c, s) == [c EXCEPT !.pparams = s.pparams, !.oparams = s.oparams, !.opSec = s.opSec, !.docSec = s.docSec, !.bdecl = s.bdecl]
+StepOf(c, via) == [via |-> via, pparams |-> c.pparams, oparams |-> c.oparams, opSec |-> c.opSec, docSec |-> c.docSec, bdecl |-> c.bdecl]
+(* what a step may change.  Cur is the content of the first route when the step is taken (edits stay until   *)
+(* "back" restores the original): a shared Operation value carries its parameters, security and body as they    *)
+(* are now; a sibling operation lives under the path item's current parameters and the current document         *)
+RECURSIVE CurAt(_, _)
+CurAt(c, i) ==
+   IF i = 1 THEN StepOf(c, "cur")
+   ELSE LET s == c.hist[i - 1] IN
+        IF s.via = "edit" THEN s ELSE IF s.via = "back" THEN StepOf(c, "cur") ELSE CurAt(c, i - 1)
+StepWellFormed(c, cur, s) ==
+   CASE s.via = "share"   -> s.oparams = cur.oparams /\ s.opSec = cur.opSec /\ s.docSec = cur.docSec /\ s.bdecl = cur.bdecl
+     [] s.via = "sibling" -> s.pparams = cur.pparams /\ s.docSec = cur.docSec
+     [] s.via = "edit"    -> TRUE
+     [] s.via = "back"    -> s = StepOf(c, "back")
+     [] OTHER -> FALSE
+
 -----------------------------------------------------------------------------
 (* L2: the security evaluation as the code performs it: requirements in order, the schemes *)
 (* of a requirement in sorted order, a requirement abandoned at its first rejected scheme, *)
 (* evaluation stops at the first satisfied requirement.                                    *)
-Declared == {"A", "B", "C"}              \* the schemes components.securitySchemes declares; "U" is not among them
+(* A scheme atom names a declared scheme and the scopes the requirement lists for it: "A+r" is scheme A with scopes   *)
+(* <<"r">>.  The callback is told both and may decide on both, so the outcome is per atom: two alternatives may name  *)
+(* the same scheme with different scopes and fare differently.                                                         *)
+Declared == {"A", "B", "C", "A+r", "A+w"}   \* atoms over the schemes components.securitySchemes declares; "U" is not declared
 RECURSIVE CallsOfReq(_, _)
 CallsOfReq(r, accepts) ==
    IF r = <<>> THEN <<>>
    ELSE IF Head(r) \notin Declared THEN <<>>          \* looked up before the callback is asked: abandoned without a call
    ELSE IF Head(r) \in accepts THEN <<Head(r)>> \o CallsOfReq(Tail(r), accepts) ELSE <<Head(r)>>
+NoCallback(c) == "opts" \in DOMAIN c /\ c.opts \in {"nocallback", "nil"}
 RECURSIVE ExpectedCalls(_, _)
 ExpectedCalls(es, accepts) ==
    IF es = <<>> THEN <<>>
